@@ -322,8 +322,9 @@ def needs_space(prev, cur):
 class Layout:
     """one rendering choice: whitespace/comments per gap, keyword casing"""
 
-    def __init__(self, rng, comments=0.05, case='random', ws=None, tight=0.3):
+    def __init__(self, rng, comments=0.05, case='random', ws=None, tight=0.3, inner_ws=None):
         self.r, self.comments, self.case, self.ws, self.tightp = rng, comments, case, ws or WS1, tight
+        self.inner_ws = inner_ws
 
     def wsrun(self):
         return self.r.choice(self.ws)
@@ -367,7 +368,7 @@ class Layout:
 
     def wsrun_inner(self):
         # whitespace inside a multi-word keyword: no comments, non-empty
-        return self.r.choice(self.ws)
+        return self.r.choice(self.inner_ws or self.ws)
 
     def render(self, lexemes):
         out = []
